@@ -496,6 +496,48 @@ func (x *Exec) applyContract(fr *Frame, st *State, cc *ssa.CallCommon, callee *s
 		}
 		x.oblige(st, "LOCK", fmt.Sprintf("callee-needs-lock(%s holds %s)@%s", key, strings.Join(ctr.Holds, ","), x.posText(cc.Pos())), BoolLit(found), "callee must be entered with the mutex held")
 	}
+	if len(ctr.Invokes) > 0 {
+		// a trusted function whose whole behaviour is "call these
+		// function-valued parameters, each once, and return their results":
+		// the calls are made here, one after the other
+		x.funcsUsed["trusted-invokes:"+FuncPkgPathShort(callee)+"."+key+" calls its function argument exactly as its contract lists and returns those results (body not verified: outside the subset)"] = true
+		var run func(s *State, i int, acc []Val)
+		run = func(s *State, i int, acc []Val) {
+			if i == len(ctr.Invokes) {
+				sig := callee.Signature
+				if len(acc) != sig.Results().Len() {
+					acc = x.freshResults(s, sig)
+				}
+				k(s, resultVal(acc, sig))
+				return
+			}
+			call, ok := ctr.Invokes[i].(SCall)
+			if !ok {
+				x.note("spec-error: invokes needs calls")
+				return
+			}
+			e2 := env.child()
+			e2.st = s
+			fv := e2.eval(call.Fun)
+			var as []Val
+			for _, a := range call.Args {
+				as = append(as, e2.eval(a))
+			}
+			if fv.Clo == nil && fv.SFn == nil {
+				sig, _ := fv.Typ.Underlying().(*types.Signature)
+				ev := &CallEvent{Kind: "fn", FnTerm: fv.T, Args: as, Desc: exprString(call), Org: fv.Org}
+				x.foreignCall(fr, s, ev, sig, as, func(s2 *State, r Val) { run(s2, i+1, append(acc[:len(acc):len(acc)], r)) })
+				return
+			}
+			target := fv.SFn
+			if fv.Clo != nil {
+				target = fv.Clo.Fn
+			}
+			x.staticCall(fr, s, cc, target, fv.Clo, as, func(s2 *State, r Val) { run(s2, i+1, append(acc[:len(acc):len(acc)], r)) })
+		}
+		run(st, 0, nil)
+		return
+	}
 	oldSt := st.clone()
 	oldEnv := env.child()
 	oldEnv.st = oldSt
